@@ -1005,6 +1005,8 @@ class SymbolicI:
                 want = _consts_of(neg)
                 for e in extra:
                     want |= _consts_of(_bz(e))
+                for pc in ctx.solver.assertions():  # sqrt symbols the path condition itself constrains
+                    want |= _consts_of(pc)
                 changed = True
                 chosen = []
                 while changed:
